@@ -28,7 +28,7 @@ PALETTE = [0, 0, 0.1, 1 / 3., 0.5, 0.7, 1]
 
 def gates(tier):
     return {'calls': 5000, 'graded_calls': 3500, 'error_expected': 400, 'surplus_cases': 500, 'missing_cases': 500,
-            'multi_alternative_cases': 1000, 'permutation_sets': 100, 'nested_cases': 150, 'inferred_cases': 150,
+            'multi_alternative_cases': 1000, 'permutation_sets': 100, 'nested_cases': 150, 'nested_error_expected': 8, 'nested_message_checks': 40, 'inferred_cases': 150,
             'message_expected': 300, 'partial_credit_false_cases': 800}
 
 
@@ -219,7 +219,7 @@ def run_forms(ctx):
     from mitxgraders import SingleListGrader, StringGrader
     rng = ctx.rng
     ident = {(e, e): 1 for e in ALPHA}
-    for i in range(ctx.n(1600, 20000)):
+    for i in range(ctx.n(3200, 40000)):
         n = rng.randint(1, 5)
         base = rng.sample(ALPHA, n)
         cfg = {'ordered': rng.random() < 0.5, 'partial_credit': rng.random() < 0.7, 'length_error': False,
@@ -253,47 +253,96 @@ def run_forms(ctx):
             if cfg['delimiter'] == ';':
                 continue
             m = rng.randint(1, 3)
-            groups = [rng.sample(ALPHA, rng.randint(1, 3)) for _ in range(m)]
-            inner_cfg = {'ordered': rng.random() < 0.5, 'partial_credit': True, 'length_error': False, 'missing_error': False,
-                         'delimiter': cfg['delimiter']}
+            same_size = rng.random() < 0.5
+            size = rng.randint(1, 3)
+            groups = [rng.sample(ALPHA, size if same_size else rng.randint(1, 3)) for _ in range(m)]
+            inner_cfg = {'ordered': rng.random() < 0.5, 'partial_credit': True, 'length_error': same_size and rng.random() < 0.4,
+                         'missing_error': rng.random() < 0.4, 'delimiter': cfg['delimiter']}
             outer_cfg = dict(cfg, delimiter='/', missing_error=False)
             inner = SingleListGrader(subgrader=lib.TableGrader(table=ident, ids=False), **inner_cfg)
-            g = SingleListGrader(answers=[list(gr) for gr in groups], subgrader=inner, **outer_cfg)
+            with_msg = rng.random() < 0.5
+            answers = {'expect': [list(gr) for gr in groups], 'msg': 'NESTMSG'} if with_msg else [list(gr) for gr in groups]
+            g = SingleListGrader(answers=answers, subgrader=inner, **outer_cfg)
             sgroups = [list(gr) for gr in groups]
-            op2 = rng.choice(['same', 'permute_groups', 'permute_inner', 'drop_item', 'extra_group', 'wrong_item'])
+            op2 = rng.choice(['same', 'permute_groups', 'permute_inner', 'drop_item', 'extra_group', 'wrong_item', 'blank_item', 'drop_group'])
             if op2 == 'permute_groups':
                 rng.shuffle(sgroups)
             elif op2 == 'permute_inner':
                 for gr in sgroups:
                     rng.shuffle(gr)
             elif op2 == 'drop_item':
-                gr = rng.choice(sgroups)
+                gr = sgroups[0]
                 if len(gr) > 1:
                     gr.pop()
             elif op2 == 'extra_group':
                 sgroups.append([rng.choice(ALPHA)])
             elif op2 == 'wrong_item':
                 rng.choice(sgroups)[0] = 'zz'
+            elif op2 == 'blank_item':
+                if len(sgroups[0]) > 1:
+                    sgroups[0][rng.randrange(len(sgroups[0]))] = rng.choice(['', ' '])
+            elif op2 == 'drop_group' and len(sgroups) > 1:
+                sgroups.pop()
             sub2 = '/'.join(inner_cfg['delimiter'].join(gr) for gr in sgroups)
-            # model: outer credit matrix from inner model grades
-            C = []
-            for eg in groups:
-                row = []
-                for sg in sgroups:
-                    il = [{'items': eg, 'alts': [[(e, 1.0)] for e in eg], 'credit': 1, 'msg': ''}]
-                    row.append(model(ident, il, inner_cfg, sg)[1])
-                C.append(row)
-            frac, _ = listmodel.single_list_credit(C, len(groups), len(sgroups), outer_cfg['ordered'], outer_cfg['partial_credit'])
+            # which (answer group, submitted group) pairs does the outer grader hand to the inner one?
+            ng, ns = len(groups), len(sgroups)
+            if outer_cfg['ordered']:
+                pairs = [(k2, k2) for k2 in range(min(ng, ns))]
+            else:
+                pairs = [(a_, b_) for a_ in range(ng) for b_ in range(ns)]
+            # model: outer credit matrix from inner model results; an inner refusal (blank item / wrong count) refuses the whole
+            C = [[0.0] * ns for _ in range(ng)]
+            A = [[set([False])] * ns for _ in range(ng)]
+            inner_error = None
+            for a_, b_ in pairs:
+                eg, sg = groups[a_], sgroups[b_]
+                il = [{'items': eg, 'alts': [[(e, 1.0)] for e in eg], 'credit': 1, 'msg': ''}]
+                r_ = model(ident, il, inner_cfg, sg)
+                if r_[0] == 'error':
+                    inner_error = r_
+                    break
+                C[a_][b_] = r_[1]
+                Cin = [[item_credit(ident, [(e, 1.0)], x) for x in sg] for e in eg]
+                A[a_][b_] = listmodel.single_list_credit(Cin, len(eg), len(sg), inner_cfg['ordered'], True)[1]
             out = lib.call(ctx, g, None, sub2)
             ctx.ev()
             ctx.count('nested_cases')
             ctx.count('calls')
-            w2 = {'outer': outer_cfg, 'inner': inner_cfg, 'answer_groups': groups, 'submission': sub2, 'op': op2, 'outcome': out.brief()}
+            w2 = {'outer': outer_cfg, 'inner': inner_cfg, 'answer_groups': groups, 'answer_level_msg': with_msg, 'submission': sub2, 'op': op2,
+                  'outcome': out.brief()}
             ctx.nontrivial(w2)
+            if outer_cfg['length_error'] and ns != ng:
+                inner_error = ('error', 'MissingInput', 'length')
+            if inner_error is not None:
+                ctx.count('nested_error_expected')
+                if out.returned or type(out.exc).__name__ != 'MissingInput':
+                    ctx.violation('C07:nested:error_expected:' + inner_error[2], 'an inner list must be refused (%s), got %r' % (inner_error[2], out.brief()), w2)
+                continue
+            frac, _ = listmodel.single_list_credit(C, ng, ns, outer_cfg['ordered'], outer_cfg['partial_credit'])
             if not out.returned:
                 ctx.violation('C07:nested:raises', repr(out.exc), w2)
             elif abs(out.value['grade_decimal'] - frac) > 1e-9:
                 ctx.violation('C07:nested:grade', 'grade %r, model %r' % (out.value['grade_decimal'], frac), w2)
+            elif with_msg:
+                # the answer-level message is deserved only when every expected group is matched by a submitted group in which
+                # every item earned credit (no group or item missing or surplus)
+                if outer_cfg['ordered']:
+                    assigns = [tuple(range(min(ng, ns))) + (None,) * (ns - min(ng, ns))]
+                else:
+                    assigns = listmodel.best_assignments(C, ng, ns)[1]
+                possible = set()
+                for a_ in assigns:
+                    if ns != ng:
+                        possible.add('')
+                        continue
+                    flags = [A[a_[j]][j] for j in range(ns)]
+                    if all(True in f for f in flags):
+                        possible.add('NESTMSG')
+                    if any(False in f for f in flags):
+                        possible.add('')
+                ctx.count('nested_message_checks')
+                if out.value['msg'] not in possible:
+                    ctx.violation('C07:nested:message', 'message %r, the model allows %r' % (out.value['msg'], sorted(possible)), w2)
         ctx.ev()
 
 
